@@ -480,8 +480,14 @@ fn main() {
         // any policy: nothing may ever remove an entry) and a limited one without ttl
         let calls_only = pi % 4 == 3;
         let variant = (seed as usize).wrapping_add(pi / 4);
-        let plain_hot = calls_only && variant % 2 == 0;
-        let hot_pool: Vec<&md::Spec> = if plain_hot {
+        // every second calls-only program runs on a PLAIN Result function with an IMPURE body: thread 0's calls succeed,
+        // the other threads' calls fail for the same arguments (C09 under concurrency: an Err is never stored and never
+        // disturbs a stored Ok; once an Ok-storing call has returned, later calls are served)
+        let result_hot = calls_only && (pi / 4) % 2 == 1;
+        let plain_hot = calls_only && !result_hot && variant % 2 == 0;
+        let hot_pool: Vec<&md::Spec> = if result_hot {
+            usable.iter().filter(|s| s.limit.is_none() && s.max_mem.is_none() && s.ttl.is_none() && s.is_result && s.is_async == (variant % 2 == 1)).collect()
+        } else if plain_hot {
             usable.iter().filter(|s| s.limit.is_none() && s.max_mem.is_none() && s.ttl.is_none() && !s.is_result && s.is_async == ((variant / 2) % 2 == 1)).collect()
         } else if calls_only {
             usable.iter().filter(|s| s.limit.map(|l| l <= 2).unwrap_or(false) && s.ttl.is_none() && s.max_mem.is_none() && !s.is_result && s.is_async == ((variant / 2) % 2 == 1)).collect()
@@ -509,7 +515,18 @@ fn main() {
         md::rt::NEXT_TL.with(|n| n.set(None));
         let nthreads = 2 + (pi % 3 == 2) as usize;
         let progs = if calls_only {
-            gen_calls_only(&mut rng, &fns, nthreads, if nthreads == 2 { 3 } else { 2 })
+            let mut ps = gen_calls_only(&mut rng, &fns, nthreads, if nthreads == 2 { 3 } else { 2 });
+            if result_hot {
+                // `call <fn> <j> <n> <ok> <len>`: every thread but the first fails
+                for p in ps.iter_mut().skip(1) {
+                    for op in p.iter_mut() {
+                        let mut f: Vec<String> = op.split(' ').map(|s| s.to_string()).collect();
+                        f[4] = "0".to_string();
+                        *op = f.join(" ");
+                    }
+                }
+            }
+            ps
         } else {
             gen_program(&mut rng, &fns, nthreads, if nthreads == 2 { 3 } else { 2 })
         };
@@ -547,6 +564,10 @@ fn main() {
                     cachelito_core::stats_registry::reset(&fns[0].name);
                 }
             }
+            // ages in the dumps have a 1 s grain (async births are whole unix seconds): a run into which a wall-clock
+            // second boundary or too much real time falls (loaded machine) is marked, its dumps' ages are not compared
+            md::wait_safe_start();
+            let run_s0 = md::now_s();
             println!("I|{}", quiescent(&fns));
             let run_t0 = Instant::now();
             let r = run_once(&ctl, &progs, &prefix, &mut rrng, None);
@@ -561,7 +582,11 @@ fn main() {
                 std::io::stdout().flush().unwrap();
                 std::process::exit(0);
             }
-            println!("Q|{}", quiescent(&fns));
+            let qd = quiescent(&fns);
+            if md::now_s() != run_s0 || run_t0.elapsed() >= Duration::from_millis(700) {
+                println!("#AGE-UNSAFE run: a clock boundary or too much real time fell into the run");
+            }
+            println!("Q|{}", qd);
             // sequential probe history, L2 format, starting from the dumped state.  Buffered: it is dropped
             // when a wall-clock second boundary (async timestamps) or too much real time fell into it.
             {
